@@ -20,6 +20,7 @@ overridden `fn visit_*` with a classification of its recursion:
       "by_design"  some children are skipped on purpose and the skipped part cannot contain a construct of the rule
                    (or skipping it is the rule's specification)                           -> RecByDesign
       "none"       there is a path that skips children which can contain the rule's constructs -> RecNone, AllowListed
+                   (no such entry at present: the ones found in round 1 were repaired in /repo)
 
 `noop_visit_type!()` (swc macro: every method for PURE TYPE syntax -- TsType, TsTypeAnn, TsInterfaceDecl,
 TsTypeAliasDecl, type parameters ... -- becomes a no-op; enums, namespaces and `as`/`satisfies` expressions are not
@@ -59,18 +60,6 @@ ALLOW = {
     ("no_redeclare", "NoRedeclareVisitor", "visit_class_prop"):
         ("by_design", "fd76bb54", "visits the computed key and the value; skipped: decorators, type annotation and the non-computed key -- "
                                   "decorators can hold expressions, recorded as an accepted gap of this scope-sensitive rule"),
-    ("no_empty_pattern", "NoEmptyPatternVisitor", "visit_object_pat_prop"):
-        ("none", "1b120b06", "descends only into nested object/array patterns; the default value of `{a = <expr>}` / `{a: b = <expr>}` and "
-                             "computed keys are never visited, so a function with an empty pattern inside a destructuring default is hidden"),
-    ("no_empty_pattern", "NoEmptyPatternVisitor", "visit_object_pat"):
-        ("none", "36de4b1a", "visits the props through visit_object_pat_prop only (see above); a non-empty pattern's defaults are skipped"),
-    ("no_empty_pattern", "NoEmptyPatternVisitor", "visit_array_pat"):
-        ("none", "93f3eb27", "descends only into directly nested object/array patterns; `[a = <expr>]` defaults (Pat::Assign) are skipped"),
-    ("no_inferrable_types", "NoInferrableTypesVisitor", "visit_class_prop"):
-        ("none", "2f7e452c", "`if prop.readonly || prop.is_optional { return; }` precedes the recursion: the initialiser of a readonly/optional "
-                             "property is never visited"),
-    ("no_inferrable_types", "NoInferrableTypesVisitor", "visit_private_prop"):
-        ("none", "7a4d8389", "same early return as visit_class_prop"),
 }
 
 
